@@ -62,6 +62,13 @@ def gen_case(rng, max_ops):
             j = int(cands[int(rng.integers(len(cands)))])
             ops.append(['E', k, j])
             shapes[k] = (T + shapes[j][0], sp)
+    # every fourth history ends with: analysis query, extend in place, the same query again (the answer must describe the longer object)
+    if rng.random() < 0.25:
+        pairs = [(k, j) for k, (Tk, spk) in enumerate(shapes) for j, (Tj, spj) in enumerate(shapes) if k != j and Tk is not None and Tj is not None and spk == spj]
+        if pairs:
+            k, j = pairs[int(rng.integers(len(pairs)))]
+            w = str(rng.choice(['speed', 'tracer', 'msd', 'volume']))
+            ops += [['Q', k, w], ['E', k, j], ['Q', k, w]]
     return {'lattice_name': name, 'lattice': lat.tolist(), 'species': species, 'objs': objs, 'ops': ops}
 
 
